@@ -38,6 +38,18 @@ PROPS = {
         "explanation": "theorems: eval_valid (induction over programs), per-operator Valid preservation, unique normal form; "
                        "correspondence: model eval = code on random programs + validB on every produced MOC",
     },
+    "C03": {
+        "trusted_base": COMMON_TB + ["Lean Float (C double) in the driver for the final division of the integer pair (num, den) of fractions; IEEE division is deterministic"],
+        "assumptions": COMMON_ASSUME + [
+            "floating-point answers (range_fraction, cell_fraction, coverage_percentage, MOM weighted sum) are compared bit-for-bit with the model's integer pair divided in double precision; no theorem is stated about them beyond the empty-MOC case",
+            "range_sum = number of covered indices is not proved (rangeSum is compared by the correspondence only)"],
+        "rule": "EXHAUSTIVE: every canonical set over a 6-cell universe (cell = 2 indices) x every point 0..13 and every non-empty range over 0..13 "
+                "for contains_val / contains_range / intersects_range / range_fraction; every ordered pair of sets over a 6-cell (quick) / 7-cell "
+                "(thorough) universe for intersects / contains / overlapped_by_iter; per (quantity,width): whole-domain small scope + boundary-biased "
+                "random MOCs with cell queries at all depths placed on/next to the MOC bounds, empty operands on both sides. "
+                "distinct_nontrivial = distinct op lines with a non-empty MOC.",
+        "explanation": "theorems: contains_val / contains_range / intersects_range / intersects / contains / overlapped_by agree with the covered set for all canonical MOCs; correspondence incl. float outputs",
+    },
 }
 
 
